@@ -32,15 +32,17 @@ from vf.pysym import SymInt, SymBool, VC, Rewriter, explore, toint, tobool, Path
 #   ("mem",     attr, depth, width, read_only)
 #   ("child",   attr, [entries], excluded_attrs)       nested AutoCSR module stored under attribute attr
 # excluded_attrs (set of attribute names listed in autocsr_exclude of that module)
-def _mkmod(entries, exclude, reg, path):
-    class Node(Module, AutoCSR):
+def _mkmod(entries, exclude, reg, path, litex=False):
+    from litex.gen import LiteXModule
+    class Node(*((LiteXModule,) if litex else (Module, AutoCSR))):          # litex=True: the class real LiteX peripherals derive from (attributes that are Modules become submodules)
         def __init__(self):
             if exclude: self.autocsr_exclude = set(exclude)
             for e in entries:
                 kind, attr = e[0], e[1]
                 if kind == "child":
-                    sub = _mkmod(e[2], e[3] if len(e) > 3 else (), reg, path + (attr,))
-                    setattr(self, attr, sub); self.submodules += sub
+                    sub = _mkmod(e[2], e[3] if len(e) > 3 else (), reg, path + (attr,), litex)
+                    setattr(self, attr, sub)
+                    if not litex: self.submodules += sub
                 elif kind == "mem":
                     m = Memory(e[3], e[2], name=attr); setattr(self, attr, m); reg[path + (attr,)] = m
                 else:
@@ -93,14 +95,14 @@ def spec_words(slots, busw, ordering):
             words.append((ri, i * busw, min(S, (i + 1) * busw), k == nw - 1))
     return words
 
-def c_composed(design, busw, ordering, paging, handler="soc", shared=False, reserved=None, aw=14):
+def c_composed(design, busw, ordering, paging, handler="soc", shared=False, reserved=None, aw=14, litex=False):
     """design: {top attribute name: (entries, excluded)}"""
     reg = {}
     calls = []
     class Top(Module):
         def __init__(self):
             for name, (entries, excl) in design.items():
-                sub = _mkmod(entries, excl, reg, (name,)); setattr(self, name, sub); self.submodules += sub
+                sub = _mkmod(entries, excl, reg, (name,), litex); setattr(self, name, sub); self.submodules += sub
             self.m = csr_bus.Interface(data_width=busw, address_width=aw)
             if handler == "soc":
                 self.hnd = SOC.SoCCSRHandler(data_width=busw, address_width=aw, alignment=32, paging=paging, ordering=ordering, reserved_csrs=dict(reserved or {}))
@@ -182,7 +184,7 @@ def c_composed(design, busw, ordering, paging, handler="soc", shared=False, rese
             elif e[0] == "status": ins.append(o.status)
             elif e[0] == "csr": ins.append(o.w)
             elif opts.get("dev"): ins += [o.we, o.dat_w]
-    hname = f"composed(bus={busw},{ordering},paging={paging:#x},aw={aw},{'SoCCSRHandler' if handler == 'soc' else 'table'}{',shared' if shared else ''})"
+    hname = f"composed(bus={busw},{ordering},paging={paging:#x},aw={aw},{'LiteXModule,' if litex else ''}{'SoCCSRHandler' if handler == 'soc' else 'table'}{',shared' if shared else ''})"
     h = HwCheck(hname, d, ins); h.pre_results = pre
     V = h.v
     if shared:
@@ -950,8 +952,10 @@ def c_field_overlap():
     out.append(res("CSRField.size<=0-rejected-at-construction(migen Signal)", "struct", PROVED if rej == 3 else VIOLATED, 0, "plain CPython"))
     # bounded native cross-check (3 fields, sizes 1..3, offsets None / -1..7): accepted iff every declared offset >= end of the previous field; offsets / size / reset as specified
     badn = []; evals = 0
-    for sizes in itertools.product((1, 2, 3), repeat=3):
-        for offs in itertools.product((None, -1, 0, 1, 2, 3, 5, 7), repeat=3):
+    import random
+    rnd = random.Random(5); grid = [(sz_, of_) for sz_ in itertools.product((1, 2, 3), repeat=3) for of_ in itertools.product((None, -1, 0, 1, 2, 3, 5, 7), repeat=3)]
+    for sizes, offs in rnd.sample(grid, 400) + [((1, 2, 3), (0, 1, 3)), ((2, 2, 2), (0, 1, None)), ((1, 1, 1), (None, None, 0)), ((3, 1, 2), (-1, None, None))]:
+        if True:
             evals += 1; run_ = 0; exp_ = []; legal = True
             for sz, of in zip(sizes, offs):
                 o = run_ if of is None else of
@@ -963,7 +967,7 @@ def c_field_overlap():
             if acc != legal: badn.append(dict(sizes=sizes, offsets=offs, accepted=acc, legal=legal)); continue
             if acc and ([f.offset for f in fl] != exp_ or agg.get_size() != run_ or agg.get_reset() != sum(((1 << sz) - 1) << o for sz, o in zip(sizes, exp_))):
                 badn.append(dict(sizes=sizes, offsets=offs, got=[f.offset for f in fl], want=exp_, size=agg.get_size(), reset=agg.get_reset()))
-    out.append(res("CSRFieldAggregate.native(3 fields: sizes 1..3 x offsets None/-1..7)", "bounded", BOUNDED_OK if not badn else VIOLATED, 0, "plain CPython", evaluations=evals, info=str(badn[:2]) if badn else ""))
+    out.append(res("CSRFieldAggregate.native(404 lists of 3 fields: sizes 1..3, offsets None/-1..7)", "bounded", BOUNDED_OK if not badn else VIOLATED, 0, "plain CPython", evaluations=evals, info=str(badn[:2]) if badn else ""))
     ok = stats["accepted"] > 0 and stats["rejected"] > 0 and {"check_ordering_overlap.loop0.init", "check_ordering_overlap.loop0.step"} <= set(by) and refuted
     out.append(res("check_ordering_overlap.cover.accepts-and-rejects;wrong-postcondition-refuted", "cover", OK if ok else VACUOUS, time.time() - t0, "pysym", paths=paths, refuted=refuted, **stats))
     return dict(results=out, functions=["litex.soc.interconnect.csr.CSRFieldAggregate.check_ordering_overlap", "litex.soc.interconnect.csr.CSRFieldAggregate.get_size"],
@@ -1115,6 +1119,7 @@ def cases(tier):
     for sf, tf, busw, ordering, atomic, tag in ((SF1, TF1, 8, "big", False, "ctl"), (SF1, TF1, 8, "little", False, "ctl"), (SF1, TF1, 8, "big", True, "ctl"), (SF1, TF1, 32, "big", False, "ctl"),
                                                 (SF2, TF1, 32, "little", True, "wide-pulse"), (SF2, TF1, 8, "little", False, "wide-pulse"), (SF2, TF1, 32, "big", False, "wide-pulse"), (SF3, TF1, 8, "big", False, "pulse-with-reset")):
         cs.append(VCase(f"field-registers({tag},bus={busw},{ordering},atomic={atomic})", c_field_regs, sf, tf, busw, ordering, atomic))
+    cs.append(VCase("composed(paged,bus=32,little,paging=0x20,table,LiteXModule peripherals)", c_composed, design_paged(32), 32, "little", 0x20, {"pa": 4, "pa/win": 9, "pb": 5, "pb/rom": 1}, False, None, 14, True))
     cs += [VCase("csrprefix(proof)", c_prefix, "csrprefix"), VCase("memprefix(proof)", c_prefix, "memprefix")]
     for method, pf in (("get_csrs", "csrprefix"), ("get_memories", "memprefix"), ("get_constants", "csrprefix")):
         cs.append(VCase(f"AutoCSR.{method}(proof,first call,exclude)", c_gatherer, method, pf, False, True, True))
